@@ -86,6 +86,8 @@ impl OneHopPath {
 
     /// Sets the second hop field with the given ingress interface and recalculates the MAC.
     ///
+    /// Expiration is copied from the first hop.
+    ///
     /// # Parameters
     /// * `ingress_interface` is the interface on which the packet is expected to arrive at the
     ///   second hop.
@@ -109,7 +111,7 @@ impl OneHopPath {
             flags: HopFieldFlags::empty(),
             cons_ingress: ingress_interface,
             cons_egress: 0,
-            expiration_units: 0,
+            expiration_units: self.hops[0].expiration_units,
             mac: HopFieldMac([0u8; 6]),
         }
         .with_calculated_mac(beta, self.info.timestamp, &forwarding_key);
